@@ -116,6 +116,9 @@ func (sa *merkleTree) Prove(key int64, from int) (proof [][]byte, err error) {
 
 func (sa *merkleTree) Add(key int64, hash []byte, proof [][]byte) error {
 	minLen := sa.minProofLenForKey(key)
+	if len(proof) > sa.level {
+		return errors.Wrapf(ErrVerify, "too long proof (height=%d len=%d", key, len(proof))
+	}
 	if len(proof) < minLen {
 		return errors.Wrapf(
 			ErrVerify, "too short proof (height=%d len=%d", key, len(proof),
